@@ -8,6 +8,7 @@ satisfies it and some value falsifies it. The correspondence check compares the 
 selector makes during real solves with the model's support on the observed domain.
 -/
 import Pumpkin.Model.Branching
+import Pumpkin.Model.AssignmentsEval
 
 namespace Pumpkin.C18
 open Pumpkin.Branching
@@ -59,5 +60,17 @@ example : 2 ≤ [-5, -2, -1, 3].length ∧
     inDomainMiddle 0 [-5, -2, -1, 3] = Atom.eq 0 (-1) ∧
     inDomainInterval 0 [-5, -2, -1, 3] = Atom.le 0 (-5) ∧
     inDomainMedian 0 [-5, -2, -1, 3] = Atom.eq 0 (-1) := by decide
+
+/-- What "currently neither true nor false" means in the solver: `evaluate_predicate` of the domain
+store (`Model/Assignments.lean`, tied to the real `Assignments` by the `asg` correspondence) answers
+`None` for a predicate over a non-empty domain **iff** some value of the domain satisfies it and some
+value does not — in every state reachable by any sequence of store operations. -/
+theorem undecided_iff_evaluate_none (ops : List Asg.St.Op) (p : Atom)
+    (hx : p.var < (Asg.St.run Asg.St.empty ops).doms.length)
+    (hne : (Asg.St.run Asg.St.empty ops).lb p.var ≤ (Asg.St.run Asg.St.empty ops).ub p.var) :
+    (Asg.St.run Asg.St.empty ops).evaluate p = none ↔
+      (∃ v, (Asg.St.run Asg.St.empty ops).contains p.var v = true ∧ p.holdsVal v = true) ∧
+      (∃ v, (Asg.St.run Asg.St.empty ops).contains p.var v = true ∧ p.holdsVal v = false) :=
+  Asg.evaluate_none_iff ops p hx hne
 
 end Pumpkin.C18
